@@ -1,1 +1,32 @@
+//! The subject registry: catalogue of built-in type expressions + generated corpus of derived declarations.
+#![allow(warnings)]
 
+pub mod catalogue {
+    use sbase::t::*;
+    include!("catalogue_gen.rs");
+}
+
+pub mod core_corpus;
+
+use sbase::Registry;
+
+/// build the registry (also registers every generated schema with the reference model)
+pub fn registry() -> Registry {
+    let mut reg = Registry::new();
+    catalogue::register(&mut reg);
+    core_corpus::register(&mut reg);
+    #[cfg(feature = "corpus")]
+    {
+        c0::register(&mut reg);
+        c1::register(&mut reg);
+        c2::register(&mut reg);
+        c3::register(&mut reg);
+        c4::register(&mut reg);
+        c5::register(&mut reg);
+        c6::register(&mut reg);
+        c7::register(&mut reg);
+    }
+    #[cfg(feature = "fresh")]
+    fresh::register(&mut reg);
+    reg
+}
